@@ -13,6 +13,7 @@ import (
 	"os"
 	"path/filepath"
 	"strings"
+	"sync"
 	"time"
 
 	"golang.org/x/crypto/ssh"
@@ -24,13 +25,36 @@ import (
 	"github.com/theparanoids/ysshra/zzverifrt/vnet"
 )
 
-// served-agent reactor: every request frame is handled by one synchronous yubiagent.ServeAgent call.
-func serveReactor(served yubiagent.YubiAgent, name string) *vnet.Reactor {
-	return &vnet.Reactor{Name: name, Handler: func(frame []byte) vnet.Reply {
-		var out bytes.Buffer
-		err := yubiagent.ServeAgent(served, rw{bytes.NewReader(vnet.Frame(frame)), &out})
-		return vnet.Reply{Raw: out.Bytes(), Close: err != nil}
-	}}
+// servedConn returns a dial factory: every dialled connection is one net.Pipe whose server end is served by ONE
+// yubiagent.ServeAgent call for the life of the connection (so per-connection state inside the serving loop is real).
+// The exchange is strictly request/response, hence deterministic although the server runs on its own goroutine.
+// A panic in the serving goroutine is captured, the connection is closed and the panic is re-raised in the caller.
+type servedPeer struct {
+	mu    sync.Mutex
+	panic string
+}
+
+func (sp *servedPeer) take() string {
+	sp.mu.Lock()
+	defer sp.mu.Unlock()
+	p := sp.panic
+	sp.panic = ""
+	return p
+}
+
+func servedConn(served yubiagent.YubiAgent, sp *servedPeer) func() (net.Conn, error) {
+	return func() (net.Conn, error) {
+		ce, se := net.Pipe()
+		go func() {
+			defer se.Close()
+			if p := ev.Guard(func() { yubiagent.ServeAgent(served, se) }); p != "" {
+				sp.mu.Lock()
+				sp.panic = p
+				sp.mu.Unlock()
+			}
+		}()
+		return ce, nil
+	}
 }
 
 type c13Op struct {
@@ -582,17 +606,23 @@ func c13RunOps(c *ev.Ctx, ops map[string]c13Op, names []string) {
 	k := c13Case{Ops: names}
 	st := &stubAgent{}
 	addr := fmt.Sprintf("/verif/yubi-served-%d", worldSeq.Add(1))
-	vnet.Register(addr, func() (net.Conn, error) { return serveReactor(st, addr), nil })
+	sp := &servedPeer{}
+	vnet.Register(addr, servedConn(st, sp))
 	defer vnet.Unregister(addr)
 	cl, err := yubiagent.NewClient(addr)
 	if err != nil {
 		c.Violation("C13:harness:newclient", err.Error(), k)
 		return
 	}
+	defer cl.Close()
 	for i, n := range names {
 		op := ops[n]
 		var msg string
-		if p := ev.Guard(func() { msg = op.Run(cl, st) }); p != "" {
+		p := ev.Guard(func() { msg = op.Run(cl, st) })
+		if sp2 := sp.take(); sp2 != "" {
+			p = sp2
+		}
+		if p != "" {
 			c.Violation("C13:crash:"+ev.PanicSite(p), fmt.Sprintf("operation %s (position %d of %v) crashed:\n%s", n, i, names, p), k)
 			return
 		}
@@ -629,18 +659,20 @@ func c13Piv(c *ev.Ctx, piv *pivEnv, k c13Case) {
 	}
 	defer vnet.Unregister(w.addr)
 	addr := fmt.Sprintf("/verif/yubi-served-%d", worldSeq.Add(1))
-	vnet.Register(addr, func() (net.Conn, error) { return serveReactor(w.srv, addr), nil })
+	sp := &servedPeer{}
+	vnet.Register(addr, servedConn(w.srv, sp))
 	defer vnet.Unregister(addr)
 	cl, err := yubiagent.NewClient(addr)
 	if err != nil {
 		c.Violation("C13:harness:newclient", err.Error(), k)
 		return
 	}
+	defer cl.Close()
 	piv.set([]byte(k.PivOutput), k.PivStatus)
 	var slots []string
 	var cert *x509.Certificate
 	var oerr error
-	if p := ev.Guard(func() {
+	p0 := ev.Guard(func() {
 		switch k.PivOp {
 		case "ListSlots":
 			slots, oerr = cl.ListSlots()
@@ -649,7 +681,11 @@ func c13Piv(c *ev.Ctx, piv *pivEnv, k c13Case) {
 		case "AttestSlot":
 			cert, oerr = cl.AttestSlot("9c")
 		}
-	}); p != "" {
+	})
+	if sp2 := sp.take(); sp2 != "" {
+		p0 = sp2
+	}
+	if p := p0; p != "" {
 		c.Violation("C13:crash:"+ev.PanicSite(p), fmt.Sprintf("%s crashed on PIV tool output %q:\n%s", k.PivOp, clip(k.PivOutput), p), k)
 		return
 	}
